@@ -22,7 +22,7 @@ def main():
     dest = "/verif/seeded/" + name
     os.makedirs(dest, exist_ok=True)
     log = open(os.path.join(dest, "confirm.log"), "w")
-    J = "-j 8"
+    J = "-j " + os.environ.get("SEED_CONFIRM_JOBS", "8")
     res = {}
     run("git checkout -- . && git clean -fdq -e target -e Cargo.lock", wt, log)
     r = run("git apply %s/demo.diff" % out, wt, log)
@@ -38,7 +38,8 @@ def main():
     run("git apply %s/patch.diff" % out, wt, log)
     # (test_single_channel_multiple_mpp spawns threads and relies on their timing: on a loaded machine it deadlocks,
     # with or without a change; it is skipped here)
-    r = run("cargo test --workspace --lib --bins --tests --offline --no-fail-fast %s -- --skip test_single_channel_multiple_mpp 2>&1 | grep -E '^test result|\\.\\.\\. FAILED|^error' | head -80" % J, wt, log)
+    scope = os.environ.get("SEED_CONFIRM_SCOPE", "--workspace")  # e.g. "-p lightning-block-sync" for a leaf crate nothing depends on
+    r = run("cargo test " + scope + " --lib --bins --tests --offline --no-fail-fast %s -- --skip test_single_channel_multiple_mpp 2>&1 | grep -E '^test result|\\.\\.\\. FAILED|^error' | head -80" % J, wt, log)
     # tests that fail on the unchanged tree in this sandbox too (BASELINE.json 'always_fail': no network / runs as root)
     always = ("resolution_failure_test", "resolution_test", "test_readonly_dir_perm_failure")
     failed = re.findall(r"^test (\S+) \.\.\. FAILED", r.stdout, re.M)
